@@ -156,7 +156,8 @@ func (eval Evaluator) stepdiff(op0, op1 *rlwe.Ciphertext) (stepdiff *rlwe.Cipher
 	}
 
 	// Required for the scale matching before the last multiplication.
-	if diff.Level() < params.LevelsConsumedPerRescaling()*2 {
+	// The result must not end below the lowest level that holds a message.
+	if diff.Level() < params.LevelsConsumedPerRescaling()*2+eval.BtsEval.MinimumInputLevel() {
 		if diff, err = eval.BtsEval.Bootstrap(diff); err != nil {
 			return
 		}
@@ -169,7 +170,7 @@ func (eval Evaluator) stepdiff(op0, op1 *rlwe.Ciphertext) (stepdiff *rlwe.Cipher
 	}
 
 	// Required for the following multiplication
-	if step.Level() < params.LevelsConsumedPerRescaling() {
+	if step.Level() < params.LevelsConsumedPerRescaling()+eval.BtsEval.MinimumInputLevel() {
 		if step, err = eval.BtsEval.Bootstrap(step); err != nil {
 			return
 		}
